@@ -76,24 +76,24 @@ theorem lo8_inc (h l : U8) : lo8 (mk16 h l + 1#16) = l + 1#8 := by
   rw [lo8_toNat, BitVec.toNat_add, mk16_toNat, BitVec.toNat_add]
   simp
   omega
-/-- 16-bit decrement (spelled `+ 0xffff` after normalisation) -/
-theorem hi8_dec (h l : U8) : hi8 (mk16 h l + 0xffff#16) = if l + 0xff#8 = 0xff#8 then h + 0xff#8 else h := by
+/-- 16-bit decrement (spelled `+ 0xffff` after normalisation of word offsets) -/
+theorem hi8_dec (h l : U8) : hi8 (mk16 h l + 0xffff#16) = if l - 1#8 = 0xff#8 then h - 1#8 else h := by
   apply BitVec.eq_of_toNat_eq
   have hh := h.isLt; have hl := l.isLt
   rw [hi8_toNat, BitVec.toNat_add, mk16_toNat]
-  by_cases hc : l + 0xff#8 = 0xff#8
-  · have : (l + 0xff#8).toNat = 255 := by rw [hc]; rfl
-    rw [BitVec.toNat_add] at this
+  by_cases hc : l - 1#8 = 0xff#8
+  · have : (l - 1#8).toNat = 255 := by rw [hc]; rfl
+    rw [BitVec.toNat_sub] at this
+    simp [hc, BitVec.toNat_sub] at this ⊢
+    omega
+  · have : (l - 1#8).toNat ≠ 255 := fun e => hc (BitVec.eq_of_toNat_eq e)
+    rw [BitVec.toNat_sub] at this
     simp [hc] at this ⊢
     omega
-  · have : (l + 0xff#8).toNat ≠ 255 := fun e => hc (BitVec.eq_of_toNat_eq e)
-    rw [BitVec.toNat_add] at this
-    simp [hc] at this ⊢
-    omega
-theorem lo8_dec (h l : U8) : lo8 (mk16 h l + 0xffff#16) = l + 0xff#8 := by
+theorem lo8_dec (h l : U8) : lo8 (mk16 h l + 0xffff#16) = l - 1#8 := by
   apply BitVec.eq_of_toNat_eq
   have hh := h.isLt; have hl := l.isLt
-  rw [lo8_toNat, BitVec.toNat_add, mk16_toNat, BitVec.toNat_add]
+  rw [lo8_toNat, BitVec.toNat_add, mk16_toNat, BitVec.toNat_sub]
   simp
   omega
 
